@@ -19,17 +19,17 @@ sys.path.insert(0, os.path.dirname(os.path.abspath(__file__)))
 from variants import VARIANTS  # noqa: E402
 
 
-def fresh():
-    if os.path.exists(SCRATCH):
-        shutil.rmtree(SCRATCH)
-    os.makedirs(SCRATCH)
+def fresh(scratch):
+    if os.path.exists(scratch):
+        shutil.rmtree(scratch)
+    os.makedirs(scratch)
     for f in ("Cargo.toml", "Cargo.lock", "build.rs"):
-        shutil.copy(os.path.join("/repo", f), SCRATCH)
-    shutil.copytree("/repo/src", os.path.join(SCRATCH, "src"))
+        shutil.copy(os.path.join("/repo", f), scratch)
+    shutil.copytree("/repo/src", os.path.join(scratch, "src"))
 
 
-def run_check(prop):
-    env = dict(os.environ, VERIF_REPO=SCRATCH, VERIF_OUT_DIR="/tmp/vst_out", VERIF_WORK_DIR="/tmp/vst_work", VERIF_CACHE_DIR="/tmp/vst_cache")
+def run_check(prop, tag):
+    env = dict(os.environ, VERIF_REPO=f"/tmp/vst_{tag}_repo", VERIF_OUT_DIR=f"/tmp/vst_{tag}_out", VERIF_WORK_DIR=f"/tmp/vst_{tag}_work", VERIF_CACHE_DIR=f"/tmp/vst_{tag}_cache")
     r = subprocess.run([os.path.join(V, "check"), prop], env=env, stdout=subprocess.PIPE, stderr=subprocess.STDOUT, text=True, cwd=V)
     keys = []
     for line in r.stdout.splitlines():
@@ -38,83 +38,87 @@ def run_check(prop):
     return r.returncode, keys, r.stdout
 
 
+def one(v):
+    import multiprocessing
+    tag = multiprocessing.current_process().name.replace("ForkPoolWorker-", "w").replace("MainProcess", "w0")
+    scratch = f"/tmp/vst_{tag}_repo"
+    out = []
+    lines = []
+    fresh(scratch)
+    ok_apply = True
+    for ed in v["edits"]:
+        if ed[0] == "@revert":
+            # reverse-apply one commit of /repo to the scratch copy (a recorded repair coming undone)
+            d = subprocess.run(["git", "-C", "/repo", "diff", ed[1] + "^", ed[1], "--", "src"], stdout=subprocess.PIPE).stdout
+            r = subprocess.run(["patch", "-R", "-p1", "-s", "-d", scratch], input=d, stdout=subprocess.PIPE, stderr=subprocess.STDOUT)
+            if r.returncode != 0:
+                ok_apply = False
+                lines.append(f"!! {v['name']}: {ed[1]} does not reverse-apply")
+                break
+            continue
+        if ed[0] == "@patch":
+            # a seeded defect kept under /verif/seeded (written by an independent sub-agent)
+            r = subprocess.run(["patch", "-p1", "-s", "-d", scratch, "-i", os.path.join(V, ed[1])], stdout=subprocess.PIPE, stderr=subprocess.STDOUT)
+            if r.returncode != 0:
+                ok_apply = False
+                lines.append(f"!! {v['name']}: {ed[1]} does not apply")
+                break
+            continue
+        f, old, new = ed[:3]
+        every = len(ed) > 3 and ed[3] == "all"
+        p = os.path.join(scratch, f)
+        s = open(p).read()
+        if s.count(old) < 1:
+            ok_apply = False
+            lines.append(f"!! {v['name']}: pattern not found in {f}")
+            break
+        s = s.replace(old, new) if every else s.replace(old, new, 1)
+        open(p, "w").write(s)
+    if not ok_apply:
+        out.append((v["name"], "APPLY-FAILED", ""))
+    else:
+        for prop, want in v["expect"].items():
+            rc, keys, txt = run_check(prop, tag)
+            if want is None:
+                verdict = "ok-silent" if rc == 0 else "FALSE-ALARM"
+            else:
+                hit = [k for k in keys if want in k]
+                verdict = "ok-fired" if (rc == 1 and hit) else ("MISSED" if rc == 0 else ("fired-other" if rc == 1 else f"rc={rc}"))
+            out.append((v["name"], prop, verdict))
+            lines.append(f"{v['name']:55s} {prop}  {verdict}")
+            if verdict not in ("ok-silent", "ok-fired"):
+                lines.append("\n".join("      " + k[:220] for k in keys[:6]))
+                if rc not in (0, 1):
+                    lines.append(txt[-1500:])
+    shutil.rmtree(scratch, ignore_errors=True)
+    print("\n".join(lines), flush=True)
+    return out
+
+
 def main():
+    import multiprocessing
     cmd = sys.argv[1] if len(sys.argv) > 1 else "list"
-    pat = sys.argv[2] if len(sys.argv) > 2 else ""
+    args = [a for a in sys.argv[2:] if not a.startswith("--")]
+    jobs = next((int(a.split("=")[1]) for a in sys.argv if a.startswith("--jobs=")), 1)
+    pat = args[0] if args else ""
     if cmd == "list":
         for v in VARIANTS:
             print(v["name"], "->", v["expect"])
         return 0
-    # evidence files are rewritten by the checks: keep the real ones
-    ev = os.path.join(V, "evidence")
-    bak = "/tmp/vst_evidence_bak"
-    if os.path.exists(bak):
-        shutil.rmtree(bak)
-    if os.path.exists(ev):
-        shutil.copytree(ev, bak)
+    todo = [v for v in VARIANTS if not pat or pat in v["name"]]
     results = []
-    try:
-        for v in VARIANTS:
-            if pat and pat not in v["name"]:
-                continue
-            fresh()
-            ok_apply = True
-            for ed in v["edits"]:
-                if ed[0] == "@revert":
-                    # reverse-apply one commit of /repo to the scratch copy (a recorded repair coming undone)
-                    d = subprocess.run(["git", "-C", "/repo", "diff", ed[1] + "^", ed[1], "--", "src"], stdout=subprocess.PIPE).stdout
-                    r = subprocess.run(["patch", "-R", "-p1", "-s", "-d", SCRATCH], input=d, stdout=subprocess.PIPE, stderr=subprocess.STDOUT)
-                    if r.returncode != 0:
-                        ok_apply = False
-                        print(f"!! {v['name']}: {ed[1]} does not reverse-apply")
-                        break
-                    continue
-                if ed[0] == "@patch":
-                    # a seeded defect kept under /verif/seeded (written by an independent sub-agent)
-                    r = subprocess.run(["patch", "-p1", "-s", "-d", SCRATCH, "-i", os.path.join(V, ed[1])], stdout=subprocess.PIPE, stderr=subprocess.STDOUT)
-                    if r.returncode != 0:
-                        ok_apply = False
-                        print(f"!! {v['name']}: {ed[1]} does not apply")
-                        break
-                    continue
-                f, old, new = ed[:3]
-                every = len(ed) > 3 and ed[3] == "all"
-                p = os.path.join(SCRATCH, f)
-                s = open(p).read()
-                if s.count(old) < 1:
-                    ok_apply = False
-                    print(f"!! {v['name']}: pattern not found in {f}")
-                    break
-                s = s.replace(old, new) if every else s.replace(old, new, 1)
-                open(p, "w").write(s)
-            if not ok_apply:
-                results.append((v["name"], "APPLY-FAILED", ""))
-                continue
-            for prop, want in v["expect"].items():
-                rc, keys, out = run_check(prop)
-                if want is None:
-                    verdict = "ok-silent" if rc == 0 else "FALSE-ALARM"
-                else:
-                    hit = [k for k in keys if want in k]
-                    verdict = "ok-fired" if (rc == 1 and hit) else ("MISSED" if rc == 0 else ("fired-other" if rc == 1 else f"rc={rc}"))
-                results.append((v["name"], prop, verdict))
-                print(f"{v['name']:55s} {prop}  {verdict}")
-                if verdict not in ("ok-silent", "ok-fired"):
-                    print("\n".join("      " + k[:220] for k in keys[:6]))
-                    if rc not in (0, 1):
-                        print(out[-1500:])
-    finally:
-        if os.path.exists(bak):
-            if os.path.exists(ev):
-                shutil.rmtree(ev)
-            shutil.copytree(bak, ev)
-            shutil.rmtree(bak)
-        if os.path.exists(SCRATCH):
-            shutil.rmtree(SCRATCH)
+    if jobs > 1:
+        with multiprocessing.Pool(jobs) as pool:
+            for r in pool.imap_unordered(one, todo):
+                results.extend(r)
+    else:
+        for v in todo:
+            results.extend(one(v))
     bad = [r for r in results if r[2] not in ("ok-silent", "ok-fired")]
     print(f"\n{len(results)} runs, {len(bad)} not as expected")
-    with open(os.path.join(V, "selftest", "last_results.json"), "w") as f:
-        json.dump(results, f, indent=1)
+    if not pat:
+        with open(os.path.join(V, "selftest", "last_results.json"), "w") as f:
+            json.dump(sorted(results), f, indent=1)
     return 1 if bad else 0
 
 
